@@ -26,7 +26,10 @@ CONSTANTS D,          \* system dimension
           M,          \* phases are M-th roots of unity
           SysGates,   \* set of system gates <<shift, phaseTableId>> available for half steps
           EnvGates,   \* set of environment gate names available per step
-          Controls,   \* set of control schedules; a schedule is a set of <<step, post?, ctlId>>
+          Controls,   \* set of control schedules; a schedule is a set of entries
+                      \*   <<step, post?, ctlId, insertion index, kind>>, kind "int" (time given as step),
+                      \*   "f-" / "f+" (time given as a float a little before / after the step's time)
+          Devs,       \* enabled deviations (known findings), {} = strict specification
           Emit
 
 \* phase tables for diagonal system gates: PhaseTab[id][t+1]
@@ -87,13 +90,23 @@ ApplyCtl(tms, r, id) ==
                [] id = 4 -> [tm EXCEPT !.f = Append(tm.f, <<"A", tm.k[1]>>)]
                [] id = 5 -> ApplyBoth(tm, LAMBDA q : SysGate(q, <<1, 1>>), LAMBDA q : SysGate(q, <<1, 1>>))]
 
-\* controls of step r on one side of the measurement, in insertion order (the schedule
-\* carries an insertion index as 4th component)
+\* controls of step r on one side of the measurement.  Strict meaning: insertion order.
+\* Deviation "MixedTimeSpecOrder" (oqupy/control.py get_controls): pre-measurement controls
+\* given by float time act before those given by step, post-measurement ones after; float
+\* times are ordered by time.
+KindRank(c) == IF c[5] = "int" THEN (IF c[2] THEN 0 ELSE 2) ELSE 1
+TimeRank(c) == IF c[5] = "f-" THEN 0 ELSE 1
+Before(x, y) ==
+    IF "MixedTimeSpecOrder" \in Devs
+    THEN \/ KindRank(x) < KindRank(y)
+         \/ KindRank(x) = KindRank(y) /\ x[5] # "int" /\ TimeRank(x) < TimeRank(y)
+         \/ KindRank(x) = KindRank(y) /\ (x[5] = "int" \/ TimeRank(x) = TimeRank(y)) /\ x[4] <= y[4]
+    ELSE x[4] <= y[4]
 CtlSeq(r, post) ==
     LET S == { c \in ctl : c[1] = r /\ c[2] = post } IN
     LET RECURSIVE Ord(_)
         Ord(T) == IF T = {} THEN <<>>
-                  ELSE LET m == CHOOSE x \in T : \A y \in T : x[4] <= y[4] IN <<m>> \o Ord(T \ {m})
+                  ELSE LET m == CHOOSE x \in T : \A y \in T : Before(x, y) IN <<m>> \o Ord(T \ {m})
     IN Ord(S)
 
 RECURSIVE ApplyCtlSeq(_, _, _)
